@@ -426,8 +426,8 @@ class Interp(object):
         if self.unique_opaque_calls and (isinstance(fv, FuncV) or self.unique_opaque_calls == 'all'):
             st.counter += 1
             return [('val', Opaque('%s()#%d@%s' % (d, st.counter, line), kind), st)]
-        if meth in ('encode',) and args == [] or meth == 'encode':
-            return [('val', Opaque('%s.encode()' % target, 'bytes'), st)]
+        if meth == 'encode':
+            return [('val', Opaque('%s.encode(%s)' % (target, ', '.join(a.desc() for a in args)), 'bytes'), st)]
         return [('val', Opaque('%s()' % d, kind), st)]
 
     def instantiate(self, cinfo, args, kwargs, st, line=None):
